@@ -53,6 +53,7 @@ def members(eng, st, group: V):
     m = eng.read_field(st, V(KRef('ProcessGroup'), z3.If(group.term == 0, z3.IntVal(-1), group.term)), 'members',
                        cls='ProcessGroup') if False else None
     arr = eng.heap_array(st, 'ProcessGroup.members', KSetInt)
+    _group_facts(eng, st, group)
     return z3.If(group.term == 0, rs(0, w, 1), z3.Select(arr, group.term))
 
 
@@ -62,7 +63,21 @@ def gsize(eng, st, group: V):
     if group.kind == KNone:
         return w
     arr = eng.heap_array(st, 'ProcessGroup.gsize', KInt)
+    _group_facts(eng, st, group)
     return z3.If(group.term == 0, w, z3.Select(arr, group.term))
+
+
+def _group_facts(eng, st, group: V):
+    """Type invariant of process-group handles: a handle other than None exists only while
+    torch.distributed is initialised, and names at least one rank."""
+    key = ('group_facts', group.term.get_id())
+    if key in eng.uf_cache or eng.binders:
+        return
+    eng.uf_cache[key] = True
+    arr = eng.heap_array(st, 'ProcessGroup.gsize', KInt)
+    eng.fact(st, z3.Implies(group.term != 0, z3.And(initialized(eng, st), z3.Select(arr, group.term) >= 1)))
+    eng.assumptions.add('torch.distributed: a ProcessGroup handle other than None exists only while the process group '
+                        'is initialised and has at least one member')
 
 
 def is_member(eng, st, group: V):
@@ -119,8 +134,8 @@ def _all_reduce(eng, st, args, kwargs):
     _collective_pre(eng, st, g, 'all_reduce')
     n = T.numel(eng, T.tf(eng, st, t, 'shape').term)
     append_event(eng, st, 1, g, z3.IntVal(-1), n, T.tf(eng, st, t, 'dtype').term)
-    gt = coerce(g, KRef('ProcessGroup')).term
-    val = T.mf('allsum', T.M, I, T.M)(T.tv(eng, st, t), gt)
+    # the sum depends on WHO takes part (the member set), not on the handle naming the group
+    val = T.mf('allsum', T.M, Vm.SetIntS, T.M)(T.tv(eng, st, t), members(eng, st, g))
     eng.write_field(st, t, 'val', V(T.KMat, val), cls='Tensor')
     eng.assumptions.add('M1: all_reduce yields the sum of the contributions of the members of the group (m_allsum)')
     return _work(eng, st, t)
@@ -174,3 +189,11 @@ def _new_group(eng, st, args, kwargs):
         eng.write_field(st, g, 'members', V(KSetInt, eng.rangeset()(0, world(eng, st), 1)), cls='ProcessGroup')
     append_event(eng, st, 7, g, z3.IntVal(-1), z3.IntVal(0), z3.IntVal(0))
     return g
+
+
+@builtin('torch.distributed.get_process_group_ranks')
+def _get_pg_ranks(eng, st, args, kwargs):
+    """Global ranks of the members of a group (returned as the set; the repository only builds a frozenset of it)."""
+    g = _group_arg(args, kwargs, 0)
+    eng.assumptions.add('torch.distributed.get_process_group_ranks(g) lists exactly the members of g')
+    return V(KSetInt, members(eng, st, g))
